@@ -64,7 +64,15 @@ def transitions(zone, rng):
     return found
 
 
+class StampLike(dt.datetime):
+    """A datetime SUBCLASS, as libraries hand them out (pandas.Timestamp, pendulum, arrow-like wrappers): the same instant, naive or aware."""
+
+
 def represent(epoch, rep):
+    if rep[0].startswith("sub_"):
+        # (built field by field from the plain value: in CPython 3.12 `Subclass.fromtimestamp(t)` drops the fold of a naive local time)
+        d = represent(epoch, {"sub_naive": ("naive_local",), "sub_fixed": ("fixed", rep[1] if len(rep) > 1 else 0), "sub_zone": ("zone", rep[1] if len(rep) > 1 else "UTC")}[rep[0]])
+        return StampLike(d.year, d.month, d.day, d.hour, d.minute, d.second, d.microsecond, tzinfo=d.tzinfo, fold=d.fold)
     if rep[0] == "naive_local":
         return dt.datetime.fromtimestamp(epoch)
     if rep[0] == "aware_utc":
@@ -80,6 +88,13 @@ PROCESS_ZONE = [None]
 
 
 def rand_rep(rng, bias_naive=0.45):
+    if rng.random() < 0.12:
+        k_ = rng.random()
+        if k_ < 0.3:
+            return ("sub_naive",)
+        if k_ < 0.7:
+            return ("sub_fixed", rng.choice([-720, -570, -300, -60, 0, 60, 330, 345, 525, 765, 840]))
+        return ("sub_zone", rng.choice(OTHER + ZONES))
     r = rng.random()
     if r < bias_naive:
         return ("naive_local",)
